@@ -284,6 +284,11 @@ def draw_doc(ch, tag="D"):
     doc.root_abstract = root_abstract
     tcount = [0]
     pcount = [0]
+    # container names: XTCE's NameType forbids only '.', '/', ':', '[', ']' and space; anything else is a legal name
+    style = ch.weighted([(5, "plain"), (1, "paren"), (1, "dash"), (1, "dollar"), (1, "unicode"), (1, "plus")], "name_style")
+    deco = {"plain": "", "paren": "(1)", "dash": "-a", "dollar": "$", "unicode": "é", "plus": "+x"}[style]
+    if deco:
+        doc.features.add("decorated_container_names")
 
     def new_params(prefix, nmax):
         """Draw 1..nmax parameters for one container; returns entries list."""
@@ -307,7 +312,7 @@ def draw_doc(ch, tag="D"):
     shared = None
     if ch.chance(1, 3, "shared"):
         ents = new_params("SH", 2)
-        shared = "SharedBlock"
+        shared = "SharedBlock" + deco
         doc.containers.append(dict(name=shared, abstract=False, base=None, criteria=None, entries=ents,
                                    short="shared block", long=None))
         doc.features.add("nested_container")
@@ -318,7 +323,7 @@ def draw_doc(ch, tag="D"):
         form = ch.draw(6, "cform")
         alt = 900 + bi if form in (4, 5) else None
         two_level = ch.chance(1, 3, "two_level")
-        cname = f"BR{bi}"
+        cname = f"BR{bi}{deco}"
         ents = new_params(cname, 6 if not two_level else 2)
         if shared and ch.chance(1, 2, "use_shared"):
             ents.insert(ch.draw(len(ents) + 1, "shared_pos"), ("c", shared))
@@ -350,7 +355,7 @@ def draw_doc(ch, tag="D"):
     if ch.chance(1, 4, "ambiguous"):
         # two concrete children that both match one APID -> "multiple valid inheritors"
         for j in range(2):
-            cname = f"AMB{j}"
+            cname = f"AMB{j}{deco}"
             ents = new_params(cname, 2)
             doc.containers.append(dict(name=cname, abstract=False, base="CCSDSPacket",
                                        criteria=criteria_node(ch.draw(3, "aform"), "PKT_APID", 77), entries=ents,
